@@ -73,6 +73,19 @@ theorem L_Lh_eq_M_studentt {n : Nat} (cov std : Fin n → Option ℝ) (dof : Fin
               * (Transc.pow (studentFac (dof i)) 0.5 * Transc.pow (studentFac (dof i)) 0.5) := by ring
       _ = _ := by rw [h1, h2]
 
+/-- `L_Lh_eq_M_studentt` speaks about the DIAGONAL noise operators the constructor derives.  FULL statement (any
+    self-adjoint `noise_std_inv = H`, `noise_cov_inv = H·H`, per-element `dof`, `D = diag((θ+1)/(θ+3))`): does NOT hold
+    for the code as it is — it computes `M = H H D`, `L = H D^{1/2}`, so `L Lᴴ = H D H ≠ M` unless `D` commutes with `H`
+    (known finding C12-studentt-dense-noise-dof).  Witness, replayed on the real code from
+    corpus/C12/studentt_dense_noise_dof.json: `H = [[2,1],[1,2]]`, `θ = (3/2, 4)`, `D = diag(5/9, 5/7)`:
+    `(H H D)₀₁ = (2·1 + 1·2)·5/7 = 20/7`, `(H D H)₀₁ = 2·(5/9)·1 + 1·(5/7)·2 = 160/63`, and `M` is not even symmetric:
+    `(H H D)₁₀ = (1·2 + 2·1)·5/9 = 20/9`. -/
+theorem studentt_dense_noise_witness :
+    ((2 * 1 + 1 * 2 : ℚ)) * (5 / 7) ≠ 2 * (5 / 9) * 1 + 1 * (5 / 7) * 2 ∧
+    ((2 * 1 + 1 * 2 : ℚ)) * (5 / 7) ≠ (1 * 2 + 2 * 1) * (5 / 9) ∧
+    ((3 / 2 + 1 : ℚ) / (3 / 2 + 3) = 5 / 9 ∧ ((4 : ℚ) + 1) / (4 + 3) = 5 / 7) := by
+  refine ⟨by norm_num, by norm_num, by norm_num, by norm_num⟩
+
 /-- Poissonian: `M = 1/λ`, `L = 1/λ^0.5` -/
 theorem L_Lh_eq_M_poisson {n : Nat} (lam : Fin n → ℝ) (h : ∀ i, 0 < lam i) :
     Factor (LR.ofML (toMat (poissonM lam)) (toMat (poissonL lam))) := by
@@ -315,6 +328,53 @@ theorem expected_pullback_vcgauss_partial (d m s : ℝ) (hs : 0 < s) :
 theorem expected_pullback_vcgauss_complex_witness :
     (2 : ℝ) + vcgFctT true * vcgFctT true ≠ vcgM1 true 1 1 := by
   simp only [vcgFctT, vcgM1, vcgFctM, if_true]; norm_num
+
+/-- VariableCovarianceGaussian, COMPLEX data, one element with parameters `(m₁ + i m₂, s)`, data `d₁ + i d₂`: the
+    transformation is `(s (m₁ − d₁), s (m₂ − d₂), 2 log s)` (`fct = 1 + iscomplex = 2`).  Its Jacobian (five
+    `HasDerivAt` facts) is `[[s, 0, m₁ − d₁], [0, s, m₂ − d₂], [0, 0, 2/s]]`; in expectation over the documented data
+    (`E rₖ = 0`, `E rₖ² = 1/s²` for both real components) the Gram matrix is `diag(s², s², 2/s² + 4/s²)`:
+    the mean block IS the metric, the inverse-std entry is `6/s²` — exactly `3/2` of the metric entry `4/s²`.
+    This is the TRUE statement about the code as it is (known finding C12-vcgauss-complex-trafo).
+    FULL statement (does NOT hold, see `expected_pullback_vcgauss_complex_witness`):
+      `… μ2 + μ2' + (2 / s) * (2 / s) = vcgM1 true s 1`   (it would hold with `fct = √2` on `log s`: `2/s² + 2/s²`). -/
+theorem expected_pullback_vcgauss_complex_factor (d1 d2 m1 m2 s : ℝ) (hs : 0 < s) :
+    HasDerivAt (fun x => vcgT0 d1 x s) s m1 ∧ HasDerivAt (fun x => vcgT0 d2 x s) s m2 ∧
+    HasDerivAt (fun x => vcgT0 d1 m1 x) (m1 - d1) s ∧ HasDerivAt (fun x => vcgT0 d2 m2 x) (m2 - d2) s ∧
+    HasDerivAt (fun x => vcgT1 true x) (2 / s) s ∧
+    (∀ μ1 μ1' μ2 μ2' : ℝ, μ1 = 0 → μ1' = 0 → μ2 = 1 / (s * s) → μ2' = 1 / (s * s) →
+      s * s = vcgM0 s 1 ∧ s * μ1 = 0 ∧ s * μ1' = 0 ∧
+      μ2 + μ2' + (2 / s) * (2 / s) = 6 / (s * s) ∧
+      μ2 + μ2' + (2 / s) * (2 / s) = 3 / 2 * vcgM1 true s 1 ∧
+      μ2 + μ2' + (2 / s) * (2 / s) ≠ vcgM1 true s 1) := by
+  have hs' : s ≠ 0 := hs.ne'
+  have dm : ∀ d m : ℝ, HasDerivAt (fun x => vcgT0 d x s) s m := by
+    intro d m
+    have := ((hasDerivAt_id m).sub_const d).const_mul s
+    simpa [vcgT0] using this
+  have ds : ∀ d m : ℝ, HasDerivAt (fun x => vcgT0 d m x) (m - d) s := by
+    intro d m
+    have := (hasDerivAt_id s).mul_const (m - d)
+    simpa [vcgT0] using this
+  refine ⟨dm d1 m1, dm d2 m2, ds d1 m1, ds d2 m2, ?_, ?_⟩
+  · have h := (Real.hasDerivAt_log hs').const_mul (vcgFctT true : ℝ)
+    have h3 : HasDerivAt (fun x => vcgT1 true x) (vcgFctT true * s⁻¹) s := h
+    exact h3.congr_deriv (by simp only [vcgFctT, if_true]; rw [div_eq_mul_inv]; ring)
+  · intro μ1 μ1' μ2 μ2' h1 h1' h2 h2'
+    subst h1; subst h1'; subst h2; subst h2'
+    have hM : vcgM1 true s 1 = 4 / (s * s) := by
+      simp only [vcgM1, vcgFctM, if_true]; ring
+    have hss : s * s ≠ 0 := mul_ne_zero hs' hs'
+    have e6 : 1 / (s * s) + 1 / (s * s) + (2 / s) * (2 / s) = 6 / (s * s) := by
+      field_simp; ring
+    refine ⟨by simp [vcgM0], by simp, by simp, e6, ?_, ?_⟩
+    · rw [e6, hM]; ring
+    · rw [e6, hM]
+      intro h
+      rw [div_left_inj' hss] at h
+      norm_num at h
+
+/-- non-vacuity of `expected_pullback_vcgauss_complex_factor`: `s = 2`: `1/4 + 1/4 + 1 = 6/4` -/
+example : (1 : ℝ) / (2 * 2) + 1 / (2 * 2) + (2 / 2) * (2 / 2) = 6 / (2 * 2) := by norm_num
 
 /-! ## the metric is the Fisher information (expected Hessian of the documented negative log-density,
     data moments substituted — DESIGN C11/C12; Student-t closed forms are trusted, see harness self-test) -/
